@@ -247,11 +247,31 @@ def installer_scan(task):
         fn = prog.func(q).node
         name = q.split(".", 2)[-1]
         ok = False
+        uni = fn.args.args[1].arg                                   # the price frame parameter
+        field = "self._%s" % fr
+        # locals that hold the frame under test: assigned into self._<frame> (or it is that attribute itself); no spelling of a local is assumed
+        holders = {field} | {ast.unparse(a.value) for a in ast.walk(fn) if isinstance(a, ast.Assign) and isinstance(a.value, ast.Name) and any(ast.unparse(t) == field for t in a.targets)}
         for n in ast.walk(fn):
             if isinstance(n, ast.If):
-                t = ast.unparse(n.test)
-                if ("%s.index.equals(universe.index)" % fr) in t:
-                    neg = ("not self._%s.index.equals" % fr) in t or ("not %s.index.equals" % fr) in t
+                def is_guard(t):
+                    return (isinstance(t, ast.Call) and isinstance(t.func, ast.Attribute) and t.func.attr == "equals" and isinstance(t.func.value, ast.Attribute)
+                            and t.func.value.attr == "index" and ast.unparse(t.func.value.value) in holders and len(t.args) == 1 and ast.unparse(t.args[0]) == uni + ".index")
+
+                def polarity(t):
+                    """'neg': a mismatch makes the test true (body runs); 'pos': a mismatch makes it false (orelse runs); None: no guard"""
+                    if is_guard(t):
+                        return "pos"
+                    if isinstance(t, ast.UnaryOp) and isinstance(t.op, ast.Not):
+                        p = polarity(t.operand)
+                        return {"pos": "neg", "neg": "pos"}.get(p)
+                    if isinstance(t, ast.BoolOp):
+                        want = "neg" if isinstance(t.op, ast.Or) else "pos"    # one true disjunct decides an `or`, one false conjunct an `and`
+                        return want if any(polarity(v) == want for v in t.values) else None
+                    return None
+
+                pol = polarity(n.test)
+                neg = pol == "neg"
+                if pol is not None:
                     mismatch = n.body if neg else n.orelse
                     if any(isinstance(x, ast.Raise) for b in mismatch for x in ast.walk(b)):
                         ok = True
